@@ -56,6 +56,9 @@ def gen_cases(c, rng, shard):
     for seq in harness.hash_collision_cases(c, rng):
         for a in seq:
             yield "congruent", a
+    if not c.custom:
+        for a in harness.novel_products(c, rng):
+            yield "source_literals", a
     for i in range(shard["nrand"]):
         a = harness.random_args(c, rng)
         yield "rand", a
